@@ -95,7 +95,7 @@ func c01f(c *Ctx) {
 					c.Check(ws.argT[0] == s.script, key+"/goto-prefix", c.W.Pos(ws.call.Pos()), "goto label is <script>_<dest>", "goto label prefix is "+ws.argT[0]+", expected the script name parameter")
 					gotoD = append(gotoD, blk)
 				}
-			case ws.konst && ws.format == "\treturn\n":
+			case len(ws.argT) == 0 && (ws.format == "\treturn\n" || ws.format == "\tend\n"):
 				termD = append(termD, blk)
 			case ws.isFmt && ws.format == "\t%s\n" && len(ws.argT) == 1 && strings.Contains(ws.argT[0], "getTerminatorCommand"):
 				termD = append(termD, blk)
